@@ -118,6 +118,7 @@ func genC05(g GenCtx) interface{} {
 	}
 	nWrites := rng.Intn(60)
 	late := rng.Intn(2) == 0
+	marathon := g.Tier == "thorough" && g.Idx%40000 == 4321
 	mk := func() {
 		p := b.randParent(rng, 3)
 		switch {
@@ -136,6 +137,13 @@ func genC05(g GenCtx) interface{} {
 			mk()
 		}
 		nNodes = 0
+	}
+	if marathon {
+		// (thorough tier only: ~2.5 million steps) 66 000 subscribe/close cycles on
+		// the root publisher behind the witness and the first nodes, then traffic
+		sc.Acts = append(sc.Acts, TAct{Op: "marathon", Node: -1, Ms: 66000}, TAct{Op: "settle"})
+		sc.Sim.MaxSteps = 8000000
+		sc.PeriodMs = 0
 	}
 	inflight := 0
 	// object identity: in a tenth of the runs the server is an in-memory store
@@ -431,11 +439,20 @@ func genC11(g GenCtx) interface{} {
 		}
 		sc.Sim.MaxSteps = 400000
 	}
+	deaf := !sc.HoldFirstList && rng.Intn(12) == 0
+	if deaf {
+		// the client ignores its context: one List call (the first or a relist)
+		// stays out until the very end, and the root is closed while it does
+		sc.PeriodMs = pickInt(rng, 50, 100)
+		sc.ListScript = map[string]string{strconv.Itoa(1 + rng.Intn(3)): "hang-deaf"}
+	}
 	n := rng.Intn(30)
 	closeAt := rng.Intn(n + 1)
 	released := !sc.HoldFirstList
 	for i := 0; i <= n; i++ {
-		if i == closeAt {
+		if i == closeAt && deaf {
+			sc.Acts = append(sc.Acts, TAct{Op: "sleep", Ms: 4 * sc.PeriodMs}, TAct{Op: "close", Node: -1})
+		} else if i == closeAt {
 			// the one node being closed: any node, or the root by any mechanism
 			switch r := rng.Intn(10); {
 			case r < 6:
@@ -477,6 +494,11 @@ func genC11(g GenCtx) interface{} {
 		}
 	}
 	sc.CloseAtEnd = rng.Intn(2) == 0
+	if deaf {
+		for i := range sc.Acts {
+			sc.Acts[i].SelfClose = 0 // (a callback that closes the root would wait for the client, too)
+		}
+	}
 	return sc
 }
 
@@ -577,7 +599,7 @@ func genC12(g GenCtx) interface{} {
 
 // ---------------------------------------------------------------- C14
 
-var listFailKinds = []string{"error", "error-typed-nil", "error-with-list", "error-with-full-list", "error-timeout", "error-canceled", "error-canceled-bare", "error-deadline-bare", "error-notrunning", "error-notrunning-wrapped", "nonlist", "nonobjects", "noitems", "status-object", "unstructured-object", "nil"}
+var listFailKinds = []string{"error", "error-typed-nil", "error-with-list", "error-with-full-list", "error-timeout", "error-canceled", "error-canceled-bare", "error-deadline-bare", "error-notrunning", "error-notrunning-wrapped", "error-nilcause", "error-nilcause-with-list", "nonlist", "nonobjects", "noitems", "status-object", "unstructured-object", "nil"}
 
 func genC14(g GenCtx) interface{} {
 	sc, rng := baseTree(g)
